@@ -324,31 +324,50 @@ def _multi_agent(ck: Check, repo: Repo) -> None:
         ck.ob("C09.5", smp, c, ok, "sampling draws batch_size distinct stored transitions (random.sample over the memory)")
     # _reorganize_dicts
     ro = cls.methods["_reorganize_dicts"]
+    rcfg = CFG(ro.node)
     fors = [n for n in walk_no_nested(ro.node) if isinstance(n, ast.For)]
     outer = [f for f in fors if isinstance(f.iter, ast.Call) and call_name(f.iter) == "range"]
     ck.floor("C09.5", len(outer), 1, "per-environment loop in _reorganize_dicts", fn=ro)
     ivar = outer[0].target.id if isinstance(outer[0].target, ast.Name) else None
-    inner = [f for f in ast.walk(outer[0]) if isinstance(f, ast.For) and isinstance(f.iter, ast.Call) and call_name(f.iter) == "enumerate"]
-    ok = bool(inner) and dotted(inner[0].iter.args[0]) == "args"
-    jvar = inner[0].target.elts[0].id if ok else None
-    argvar = inner[0].target.elts[1].id if ok else None
-    ck.ob("C09.5", ro, inner[0] if inner else ro.node, ok, "every field (arg) is visited for every environment index")
+    fields = ro.node.args.vararg.arg if ro.node.args.vararg is not None else "args"  # role: the fields are the function's *arguments
+    # the loop over the fields, nested in the loop over the environments: it binds the field, and either the field's position j or, walking
+    # other lists in step with the fields (zip), those lists' elements at the field's position
+    inner = [(f, it) for f in ast.walk(outer[0]) if isinstance(f, ast.For) and f is not outer[0] for it in [_field_iteration(f, fields)] if it is not None]
+    ok = bool(inner)
+    why = f"no loop over `{fields}` (enumerate / zip) inside the loop over the environments"
     if ok:
-        subs = [x for x in ast.walk(inner[0]) if isinstance(x, ast.Subscript) and isinstance(x.ctx, ast.Load)
-                and isinstance(x.slice, ast.Name) and x.slice.id in (ivar, jvar)]
-        idx_i = [x for x in subs if x.slice.id == ivar]
-        ck.ob("C09.5", ro, inner[0], len(idx_i) >= 3 and not any(isinstance(x.slice, ast.Constant) for x in ast.walk(inner[0]) if isinstance(x, ast.Subscript)),
+        floop, (argvar, jvar, paired) = inner[0]
+        short_ = [lst for lst in paired.values() if not _one_per_field(ro, rcfg, floop, lst, fields)]
+        ok = not short_
+        why = f"`{short_[0]}` is walked in step with `{fields}` but is not known to have one element per field: zip stops at the shorter one" if short_ else ""
+    ck.ob("C09.5", ro, inner[0][0] if inner else ro.node, ok, "every field (arg) is visited for every environment index", detail=why)
+    if ok:
+        floop = inner[0][0]
+        # the code that builds one field's per-environment value: the loop body, and the methods of the class it hands the environment
+        # index to (with the name the index has there)
+        code = _element_code(cls, floop, ivar)
+        idx_i = [x for root, iv in code if iv is not None for x in ast.walk(root) if isinstance(x, ast.Subscript) and isinstance(x.ctx, ast.Load)
+                 and isinstance(x.slice, ast.Name) and x.slice.id == iv]
+        ck.ob("C09.5", ro, floop, len(idx_i) >= 3 and not any(isinstance(x.slice, ast.Constant) for root, _ in code for x in ast.walk(root) if isinstance(x, ast.Subscript)),
               "values of every field are taken at the same environment index i", detail=f"{len(idx_i)} reads at [{ivar}]")
-        apps = [c for c in calls_in(inner[0]) if last_attr(c) == "append"]
+        apps = [c for c in calls_in(floop) if last_attr(c) == "append"]
         resvar = _returned_name(ro)  # role: the list of per-field lists is the variable the function returns (as a tuple)
-        ok2 = len(apps) == 1 and isinstance(apps[0].func.value, ast.Subscript) and resvar is not None and dotted(apps[0].func.value.value) == resvar \
-            and isinstance(apps[0].func.value.slice, ast.Name) and apps[0].func.value.slice.id == jvar
-        ck.ob("C09.5", ro, apps[0] if apps else inner[0], ok2, "the per-environment dict of field j is appended to results[j]")
-        items = [f for f in ast.walk(inner[0]) if isinstance(f, ast.For) and isinstance(f.iter, ast.Call) and last_attr(f.iter) == "items"]
-        ck.ob("C09.5", ro, items[0] if items else inner[0], bool(items) and dotted(items[0].iter.func.value) == argvar,
+        recv = apps[0].func.value if len(apps) == 1 else None
+        # the receiver is the returned list's element at the field's position: results[j], or the element zip pairs with the field
+        ok2 = resvar is not None and (
+            (isinstance(recv, ast.Subscript) and dotted(recv.value) == resvar and isinstance(recv.slice, ast.Name) and jvar is not None and recv.slice.id == jvar)
+            or (isinstance(recv, ast.Name) and paired.get(recv.id) == resvar))
+        ck.ob("C09.5", ro, apps[0] if apps else floop, ok2, "the per-environment dict of field j is appended to results[j]")
+        # iterations over some mapping's items() (loops and comprehensions alike); those not nested in another one (their mapping is not
+        # bound by another one) enumerate the keys of the dict that is built
+        items = [(x.iter, x.target) for x in ast.walk(floop) if isinstance(x, (ast.For, ast.comprehension)) and isinstance(x.iter, ast.Call)
+                 and last_attr(x.iter) == "items" and isinstance(x.iter.func, ast.Attribute)]
+        bound = {y.id for _, t in items for y in ast.walk(t) if isinstance(y, ast.Name)}
+        top = [it for it, _ in items if not (isinstance(it.func.value, ast.Name) and it.func.value.id in bound)]
+        top.sort(key=lambda c: (c.lineno, c.col_offset))
+        ck.ob("C09.5", ro, top[0] if top else floop, bool(top) and all(dotted(it.func.value) == argvar for it in top),
               "agents (keys) are read from the field being reorganised")
     # the number of environment entries must be read from an array leaf, after the same dict / tuple dispatch the element code uses
-    rcfg = CFG(ro.node)
     rng = outer[0].iter.args[0] if outer and outer[0].iter.args else None
     okn = False
     whyn = "range bound not found"
@@ -407,6 +426,77 @@ def _multi_agent(ck: Check, repo: Repo) -> None:
         ok = bool(stores) and all(dotted(s.targets[0].value.slice) == fvar and dotted(s.targets[0].slice) == avar for s in stores)
         ck.ob("C09.5", pt, c, ok, "a sampled value read as (field, agent) is stored under the same (field, agent)",
               detail=f"read [{fvar}][{avar}]")
+
+
+def _field_iteration(f: ast.For, fields: str) -> Optional[Tuple[str, Optional[str], Dict[str, str]]]:
+    """`f` iterates over all of the sequence `fields`, one element per iteration: (name bound to the field, name bound to the field's position or
+    None, {name bound to the element at the field's position of another list: that list}).  enumerate(fields) binds the position,
+    zip(.., fields, ..) binds the other lists' elements at the same position (provided they are long enough: see _one_per_field)."""
+    it, tg = f.iter, f.target
+    if not (isinstance(it, ast.Call) and not it.keywords and isinstance(tg, ast.Tuple) and all(isinstance(e, ast.Name) for e in tg.elts)):
+        return None
+    if call_name(it) == "enumerate" and len(it.args) == 1 and dotted(it.args[0]) == fields and len(tg.elts) == 2:
+        return tg.elts[1].id, tg.elts[0].id, {}
+    if call_name(it) == "zip" and len(it.args) == len(tg.elts) and all(isinstance(a, ast.Name) for a in it.args):
+        pos = [k for k, a in enumerate(it.args) if a.id == fields]
+        if len(pos) == 1:
+            return tg.elts[pos[0]].id, None, {e.id: a.id for k, (e, a) in enumerate(zip(tg.elts, it.args)) if k != pos[0]}
+    return None
+
+
+def _one_per_field(fn: Fn, cfg: CFG, at: ast.For, lst: str, fields: str) -> bool:
+    """Every definition of the local `lst` that reaches the loop `at` is a list with exactly one element per field (a comprehension with a single,
+    unfiltered generator over the fields or over range(len(fields))), and the list itself is not changed afterwards (no method call on it, no
+    store into / deletion of its elements)."""
+    n = cfg.node_of(at.iter)
+    if n is None:
+        return False
+    defs = cfg.defs_reaching(n, lst)
+    if not defs:
+        return False
+    for d in defs:
+        v = cfg.value_of_def(d, lst)
+        if not (isinstance(v, ast.ListComp) and len(v.generators) == 1 and not v.generators[0].ifs and not v.generators[0].is_async):
+            return False
+        g = v.generators[0].iter
+        over_len = isinstance(g, ast.Call) and call_name(g) == "range" and len(g.args) == 1 and not g.keywords and isinstance(g.args[0], ast.Call) \
+            and call_name(g.args[0]) == "len" and len(g.args[0].args) == 1 and dotted(g.args[0].args[0]) == fields
+        if not (dotted(g) == fields or over_len):
+            return False
+    for x in walk_no_nested(fn.node):
+        if isinstance(x, ast.Call) and isinstance(x.func, ast.Attribute) and dotted(x.func.value) == lst:
+            return False
+        if isinstance(x, ast.Subscript) and isinstance(x.ctx, (ast.Store, ast.Del)) and dotted(x.value) == lst:
+            return False
+        if isinstance(x, ast.AugAssign) and dotted(x.target) == lst:
+            return False
+    return True
+
+
+def _element_code(cls: Cls, loop: ast.For, ivar: Optional[str]) -> List[Tuple[ast.AST, Optional[str]]]:
+    """The loop and the methods of the class called from it (self.m(..), once each), each with the name the loop's environment index has there:
+    the parameter the index is passed for, when it is passed as such and the parameter is never re-bound (else None)."""
+    out: List[Tuple[ast.AST, Optional[str]]] = [(loop, ivar)]
+    seen: Set[str] = set()
+    for c in calls_in(loop):
+        d = call_name(c)
+        if not (d.startswith("self.") and d.count(".") == 1 and d[5:] in cls.methods) or d in seen:
+            continue
+        seen.add(d)
+        callee = cls.methods[d[5:]].node
+        a = callee.args
+        params = [p.arg for p in a.posonlyargs + a.args]
+        if not any(dotted(x) == "staticmethod" for x in callee.decorator_list):
+            params = params[1:]
+        names = {params[k] for k, x in enumerate(c.args) if isinstance(x, ast.Name) and x.id == ivar and k < len(params)}
+        names |= {k.arg for k in c.keywords if k.arg is not None and isinstance(k.value, ast.Name) and k.value.id == ivar
+                  and k.arg in params + [p.arg for p in a.kwonlyargs]}
+        rebound = {y.id for y in ast.walk(callee) if isinstance(y, ast.Name) and isinstance(y.ctx, (ast.Store, ast.Del))}
+        rebound |= {p.arg for f in ast.walk(callee) if isinstance(f, (ast.FunctionDef, ast.AsyncFunctionDef, ast.Lambda)) and f is not callee
+                    for p in f.args.posonlyargs + f.args.args + f.args.kwonlyargs}
+        iv = names.pop() if ivar is not None and len(names) == 1 and not (names & rebound) else None
+        out.append((callee, iv))
+    return out
 
 
 def _returned_name(fn: Fn) -> Optional[str]:
@@ -592,4 +682,46 @@ VARIANTS += [
     ("wrap-contiguous-case-first-bodies-not-swapped", _RBF, "        if end > self.max_size:", "        if end <= self.max_size:", "fire", "C09.1"),
     ("wrap-helper-early-return-off-by-one", _RBF, _WRITE_BLOCK, _write_helper("end < self.max_size - 1", "_write"), "fire", "C09.1"),
     ("wrap-contiguous-write-unguarded", _RBF, "        else:\n            self._storage[start:end] = data\n", "        self._storage[start:end] = data\n", "fire", "C09.1"),
+]
+
+_MA_COUNT = ("        # Number of environments: measure an array leaf, not the dict/tuple container\n        first = next(iter(args[0].values()))\n"
+             "        if isinstance(first, dict):\n            first = next(iter(first.values()))\n        elif isinstance(first, tuple):\n"
+             "            first = first[0]\n        num_entries = len(first)\n")
+_MA_REORG_OLD = ("        def maybe_to_array(value):\n            return np.array(value) if not isinstance(value, np.ndarray) else value\n\n"
+                 "        results = [[] for _ in range(len(args))]\n" + _MA_COUNT +
+                 "        for i in range(num_entries):\n            for j, arg in enumerate(args):\n                new_dict = {}\n"
+                 "                for key, value in arg.items():\n                    if isinstance(value, dict):\n"
+                 "                        new_dict[key] = {\n                            k: maybe_to_array(v[i]) for k, v in value.items()\n"
+                 "                        }\n                    elif isinstance(value, tuple):\n"
+                 "                        new_dict[key] = tuple(maybe_to_array(v[i]) for v in value)\n                    else:\n"
+                 "                        new_dict[key] = maybe_to_array(value[i])\n\n                results[j].append(new_dict)\n\n"
+                 "        return tuple(results)\n")
+
+
+def _ma_reorg_helper(helper: str, slots: str = "[[] for _ in args]", loop: str = "for per_env, arg in zip(results, args)", recv: str = "per_env",
+                     index: str = "i", keys: str = "arg.items()", leaf: str = "value[idx]") -> str:
+    """_reorganize_dicts with the dict / tuple / array dispatch in a static method `helper` that returns early and is called from a dict
+    comprehension (where the front end does not inline it), the fields walked by `loop` and the value appended to `recv`; the method's name
+    is spelled only inside VARIANTS"""
+    return (_MA_COUNT + f"\n        results = {slots}\n        for i in range(num_entries):\n            {loop}:\n"
+            f"                {recv}.append(\n                    {{key: self.{helper}(value, {index}) for key, value in {keys}}}\n                )\n\n"
+            "        return tuple(results)\n\n    @staticmethod\n"
+            f"    def {helper}(value: NumpyObsType, idx: int) -> NumpyObsType:\n\n        def maybe_to_array(entry):\n"
+            "            return np.array(entry) if not isinstance(entry, np.ndarray) else entry\n\n        if isinstance(value, dict):\n"
+            "            return {k: maybe_to_array(v[idx]) for k, v in value.items()}\n        if isinstance(value, tuple):\n"
+            f"            return tuple(maybe_to_array(v[idx]) for v in value)\n        return maybe_to_array({leaf})\n")
+
+
+VARIANTS += [
+    # the fields may be walked by zip(results, args) (the slot is the element paired with the field) as well as by enumerate(args) + results[j];
+    # the element code may sit in a method of the class that receives the environment index; the keys may be enumerated by a comprehension
+    ("ma-reorg-helper-zip-comprehension-ok", _MAF, _MA_REORG_OLD, _ma_reorg_helper("_select_env"), "silent", None),
+    ("ma-reorg-helper-enumerate-comprehension-ok", _MAF, _MA_REORG_OLD,
+     _ma_reorg_helper("_select_env", slots="[[] for _ in range(len(args))]", loop="for j, arg in enumerate(args)", recv="results[j]"), "silent", None),
+    ("ma-reorg-zip-slots-one-short", _MAF, _MA_REORG_OLD, _ma_reorg_helper("_select_env", slots="[[] for _ in args[1:]]"), "fire", "C09.5"),
+    ("ma-reorg-zip-slots-of-other-list", _MAF, _MA_REORG_OLD,
+     _ma_reorg_helper("_select_env", slots="[[] for _ in args]\n        spare = [[] for _ in args]", loop="for per_env, arg in zip(spare, args)"), "fire", "C09.5"),
+    ("ma-reorg-helper-given-index-zero", _MAF, _MA_REORG_OLD, _ma_reorg_helper("_select_env", index="0"), "fire", "C09.5"),
+    ("ma-reorg-helper-leaf-at-zero", _MAF, _MA_REORG_OLD, _ma_reorg_helper("_select_env", leaf="value[0]"), "fire", "C09.5"),
+    ("ma-reorg-comprehension-keys-of-first-field", _MAF, _MA_REORG_OLD, _ma_reorg_helper("_select_env", keys="args[0].items()"), "fire", "C09.5"),
 ]
